@@ -1,6 +1,6 @@
 //! G5: parser-input mutators over a G4 encoding with known spans.
 
-use crate::refmodel::sml::{fix_crcs, tlf_bytes, Written, TY_LIST};
+use crate::refmodel::sml::{fix_crcs, fix_crcs_scan, tlf_bytes, Written, TY_LIST};
 use proptest::collection::vec;
 use proptest::prelude::*;
 
@@ -255,6 +255,8 @@ pub fn mutate(w: &Written, muts: &[PMut], fix: bool) -> (Vec<u8>, Vec<String>, u
     for m in muts {
         labels.push(apply(&mut bytes, w, m));
     }
-    let patched = if fix { fix_crcs(&mut bytes) } else { 0 };
+    // grammar-based fix-up first (handles 1-byte and non-minimal checksum fields), then the
+    // grammar-independent scan for messages whose structure the grammar rejects
+    let patched = if fix { fix_crcs(&mut bytes) + fix_crcs_scan(&mut bytes) } else { 0 };
     (bytes, labels, patched)
 }
